@@ -235,7 +235,16 @@ func (r *Run) newSrvScen(o srvOpts) *srvScen {
 	return sc
 }
 
-func (sc *srvScen) close() { sc.s.Close(); sc.conn.Close() }
+// Close must not hang the harness when the server's lock has been lost by the code under test.
+func (sc *srvScen) close() {
+	done := make(chan struct{})
+	go func() { sc.s.Close(); close(done) }()
+	select {
+	case <-done:
+	case <-time.After(2 * time.Second):
+	}
+	sc.conn.Close()
+}
 
 func (sc *srvScen) numCbs() int { sc.cbMu.Lock(); defer sc.cbMu.Unlock(); return len(sc.cbs) }
 
